@@ -27,7 +27,8 @@ EXTENDS WireCodec, TLC, Json
 CONSTANTS Pairs,        \* "none" | "some" | "all": which two-field combinations are generated
           MaxAbsent,    \* header presence: up to this many absent fields
           GroupProduct, \* TRUE: header subsets x group subsets, FALSE: their sum
-          OddAll        \* TRUE: every transaction subset also with odd field contents
+          OddAll,       \* TRUE: every transaction subset also with odd field contents
+          MaxSeq        \* lives of an object: up to this many H / C / M steps
 
 VARIABLES phase, c
 vars == <<phase, c>>
@@ -85,6 +86,19 @@ RetainCases ==
   \cup { [op |-> "retain", kind |-> k, cls |-> [g \in {key} |-> ToString(n)], inter |-> i] :
            <<k, key>> \in {<<"block", "#txs">>, <<"txs", "#list">>}, n \in {0, 2, TxCountPerBlock}, i \in Interleavings \ {"none"} }
   \cup { [op |-> "rt", kind |-> "member", cls |-> [g \in {f} |-> cl]] : f \in {"Id", "PubKey"}, cl \in ClassesOf("bytes") \ {"nil"} }      \* both are `required` in x.proto
+
+(* lives of one object: every order of H / C / M up to MaxSeq steps, the M steps walking through all
+   fields of the kind (hashed or not) from every starting field, then Hash := GenHash(), wire, GenHash *)
+HashFieldSeq(kind) ==
+  CASE kind = "header" -> HeaderSeq [] kind = "tx" -> SelectSeq(TxSeq, LAMBDA f : f # "Hash")
+    [] kind = "gheader" -> SelectSeq(GHeaderSeq, LAMBDA f : f # "Hash")
+LifeSteps(kind, pat, f0) ==
+  LET F == HashFieldSeq(kind) IN
+  [i \in 1..Len(pat) |-> IF pat[i] = "M" THEN [o |-> "M", f |-> F[((f0 + i - 2) % Len(F)) + 1]] ELSE [o |-> pat[i], f |-> ""]]
+  \o <<[o |-> "S", f |-> ""], [o |-> "H", f |-> ""], [o |-> "W", f |-> ""], [o |-> "H", f |-> ""]>>
+Lives(kind) ==
+  { [op |-> "hashseq", kind |-> kind, steps |-> LifeSteps(kind, pat, f0)] :
+      pat \in UNION { [1..n -> {"H", "C", "M"}] : n \in 1..MaxSeq }, f0 \in 1..Len(HashFieldSeq(kind)) }
 
 BlockShapes == { [op |-> "rt", kind |-> "block", cls |-> [g \in {"#txs"} |-> n]] : n \in {"nil", "empty", "two"} }
 
@@ -145,6 +159,7 @@ OddPresence ==
 Seeds == UNION { { [op |-> "seed", fam |-> "rt", kind |-> k, i |-> i] : i \in 1..Len(KeysOf(k)) } : k \in Kinds }
          \cup { [op |-> "seed", fam |-> "txp", low |-> l] : l \in SUBSET (1..4) }
          \cup { [op |-> "seed", fam |-> f] : f \in {"headerp", "groupp", "blockp", "txsp", "blockshape", "oddp", "card", "retain"} }
+         \cup { [op |-> "seed", fam |-> "life", kind |-> k] : k \in {"header", "tx", "gheader"} }
 
 CasesOf(s) ==
   CASE s.fam = "rt" -> Singles(s.kind, s.i) \cup PairsOf(s.kind, s.i)
@@ -157,6 +172,7 @@ CasesOf(s) ==
     [] s.fam = "oddp" -> OddPresence
     [] s.fam = "card" -> CardCases
     [] s.fam = "retain" -> RetainCases
+    [] s.fam = "life" -> Lives(s.kind)
 
 Init == phase = 0 /\ c \in Seeds
 Next == phase = 0 /\ phase' = 1 /\ c' \in CasesOf(c)
@@ -176,8 +192,14 @@ ASSUME \A fk \in AllFieldKinds : \A cl \in ClassesOf(fk) : ClassTheorems(fk, cl)
 
 KindOfKey(kind, key) == LET K == KeysOf(kind)
                             i == CHOOSE j \in 1..Len(K) : K[j][1] = key IN K[i][2]
+AllFieldsOf(kind) == {HashFieldSeq(kind)[i] : i \in 1..Len(HashFieldSeq(kind))}
 Theorems == phase = 1 =>
-  IF c.op \in {"rt", "retain"} THEN
+  IF c.op = "hashseq" THEN
+       \* the digest view after the whole life is that of the final values; steps other than M never change it
+       LET st0 == [f \in AllFieldsOf(c.kind) |-> 0] IN
+       \A n \in 1..Len(c.steps) :
+          c.steps[n].o # "M" => DigestView(c.kind, StateAfter(st0, c.steps, n)) = DigestView(c.kind, StateAfter(st0, c.steps, n - 1))
+  ELSE IF c.op \in {"rt", "retain"} THEN
        /\ \A key \in DOMAIN c.cls : key \in CardKeys \/ c.kind = "member" \/ ClassTheorems(KindOfKey(c.kind, key), c.cls[key])
        /\ (c.op = "retain" => \A y \in {"another value"} : Retained(c.cls, y, c.inter) = c.cls)
   ELSE /\ ParseRef(c.kind, c.present, c.hpresent, c.txs, c.tv) \in {"object", "error"}
@@ -188,6 +210,10 @@ Theorems == phase = 1 =>
 (* the codec has no cardinality limit, and the retention dimension is not vacuous *)
 ASSUME \A n \in CardPoints(TxCountPerBlock) \cup CardPoints(GroupMaxMembers) : NormCard(n) = n /\ ParseCard(n) = "object"
 ASSUME \E i \in Interleavings : AliasedRetained("x", "y", i) # Retained("x", "y", i)
+
+(* the life dimension is not vacuous: some life distinguishes a memoised digest from the function of the current values *)
+ASSUME \E l \in Lives("header") : LET st0 == [f \in AllFieldsOf("header") |-> 0] IN
+         \E n \in 1..Len(l.steps) : l.steps[n].o = "H" /\ MemoView("header", st0, l.steps, n) # DigestView("header", StateAfter(st0, l.steps, n))
 
 Dump == phase = 1 => PrintT(<<"CASE", ToJson(c)>>)
 =============================================================================
